@@ -21,6 +21,20 @@ CHECKS.update({
          'Model-based generated histories with the harness owning clock and schedule: validator-outlives-deadline, cancel-then-late-packet and packet-at-deadline interleavings are reached deterministically; thousands (quick) to >10^5 (thorough) histories. No exhaustiveness claim.',
          'Trusts the reference model in pbt/checks/c03_pit.py and the virtual loop (pbt/sim/vloop.py); ties within 1 ms of a deadline accept both neighbouring outcomes; reads len(_pit)/_int_tree as a secondary observation.', '6/C03'),
 })
+CHECKS.update({
+ 'C04': ('Hypothesis-generated attach/detach/interest/advance/reply histories over three subjects (appv2, legacy app, Dispatcher) against one dict longest-prefix model and a reply-deadline model on the virtual clock',
+         'Model-based generated histories; every Interest dispatch is compared with an independent longest-prefix lookup, every reply with the deadline model. Thousands (quick) to >10^5 (thorough) histories.',
+         'Trusts the dict model in pbt/checks/c04_dispatch.py and the virtual loop; detach of an absent prefix may raise KeyError.', '6/C04'),
+ 'C05': ('Exhaustive enumeration of the verdict x latency x signing x digest-state x validator-state grid for both front-ends plus Hypothesis-sampled mixed batches; oracle: harness call log (accepted-before-delivered), verdict mapping, ValidationFailure contents',
+         'The combination grid named in the property is small and is enumerated completely in both tiers (exhaustive for that grid); mixed batches on one app instance are sampled.',
+         'Trusts the reference decision table in pbt/checks/c05_validation.py; validators that raise are outside the quantifier.', '6/C05'),
+ 'C06': ('Exhaustive cut enumeration + Hypothesis cut sets for stream framing through a real asyncio.StreamReader; Hypothesis random bytes and byte/TLV-structural mutations of every packet kind delivered to both front-ends and the UdpFace protocol object with bystander Interests/handlers; oracle: exact packet list, normal return, no unhandled loop error, bystanders still work',
+         'Generated-input fuzzing of the receive path with a behavioural oracle (not only crash detection); every single cut position of the fixed streams is enumerated.',
+         'Trusts the strict TLV walker for deciding what a stream face would hand over; declared lengths < 2^17.', '6/C06'),
+ 'C10': ('Metamorphic Hypothesis histories: each history is run with minimal and with fully wrapped link-layer envelopes (independent encoder) on two fresh apps and the observable logs compared; absolute oracles for Nack reason codes, fragmented envelopes and PIT-token echo',
+         'Metamorphic relation + absolute oracles over generated histories; thousands (quick) to ~10^5 (thorough).',
+         'Header fields are generated in ascending type order (as NFD sends them); token clause on appv2 only.', '6/C10'),
+})
 NOT_YET = {}
 def main():
     props = [json.loads(l) for l in open(os.path.join(ROOT, 'properties.jsonl'))]
